@@ -31,6 +31,27 @@ Proof.
 Qed.
 Print Assumptions C18_read_bounds.
 
+(* the real loop is covered: onReadReady (expand, read, callback when the window reaches onDataThreshold, final
+   callback at EAGAIN; the callback consuming any amount allowed by its policy) performs an operation list that runs
+   whenever the kernel keeps its side of the contract [kernel_ok] (each read returns between 1 and `count` bytes of the
+   stream) -- the code never issues an invalid commit --, the geometry it ends in is the one the geometry function
+   computes, and the invariant of C18_read holds afterwards (and, a run of a prefix being a run, at every callback) *)
+Theorem C18_on_read_ready : forall c stream reads s pol, cfg_ok c ->
+  rinv stream s -> Forall (fun k => 0 <= k) pol ->
+  kernel_ok c (geo (rb s)) reads pol (zlen stream - received s) ->
+  exists s', r_run c stream s (fst (fst (fst (on_read_ready c (geo (rb s)) reads pol)))) = Some s' /\
+             geo (rb s') = snd (fst (on_read_ready c (geo (rb s)) reads pol)) /\ rinv stream s'.
+Proof. intros c stream reads s pol C. exact (on_read_ready_instance c stream C reads s pol). Qed.
+Print Assumptions C18_on_read_ready.
+
+(* [rinv] is what C18_read states: window = unconsumed part of the received stream, offsets inside the buffer *)
+Theorem C18_rinv_meaning : forall stream s, rinv stream s ->
+  r_window (rb s) = slice stream (consumed s) (received s) /\
+  0 <= g_start (geo (rb s)) <= g_end (geo (rb s)) /\ g_end (geo (rb s)) <= g_len (geo (rb s)) /\
+  g_end (geo (rb s)) - g_start (geo (rb s)) = received s - consumed s.
+Proof. intros stream s [(G1 & G2 & G3) L (N1 & N2 & N3) W]. auto. Qed.
+Print Assumptions C18_rinv_meaning.
+
 (* write: for every pattern of partial writes / EAGAIN / failure the bytes accepted by the kernel are exactly a
    prefix of the message, in order, each once; write returns nil exactly when the whole message is on the wire *)
 Theorem C18_write : forall data ks w', write data ks = Some w' ->
@@ -69,6 +90,15 @@ Example C18_example_read :
   | None => False
   end.
 Proof. vm_compute. repeat split. Qed.
+
+(* one onReadReady on the tiny buffer: the threshold callback fires in the middle, consumes part, the loop goes on *)
+Example C18_example_on_read_ready :
+  let c := {| init_len := 4; threshold := 6; shrink_limit := 8 |} in
+  let r := on_read_ready c (g_init c) [4; 3; 1] [5; 100] in
+  fst (fst (fst r)) = [RRead 4; RRead 3; RCommit 5; RRead 1; RCommit 3] /\
+  map cb_window (snd (fst (fst r))) = [7; 3] /\ snd (fst r) = {| g_len := 8; g_start := 0; g_end := 0 |} /\
+  kernel_ok c (g_init c) [4; 3; 1] [5; 100] 8.
+Proof. vm_compute. repeat split; try discriminate. Qed.
 
 Example C18_example_write :
   match write [1; 2; 3; 4; 5; 6; 7] [KAccept 2; KEagain; KEagain; KAccept 1; KAccept 4; KFail] with
